@@ -77,6 +77,18 @@ func genTree(r *core.Rand) []treeFile {
 	if r.Chance(1, 10) {
 		files = append(files, treeFile{Path: "src/emptydir/"})
 	}
+	if r.Chance(1, 5) {
+		// an output tree left by an earlier run: same names, longer stale content
+		for _, f := range append([]treeFile{}, files...) {
+			if f.Symlink == "" && f.Link == "" && strings.HasPrefix(f.Path, "src/") && !strings.HasSuffix(f.Path, "/") && r.Bool() {
+				p := "out/" + strings.TrimPrefix(f.Path, "src/")
+				if !seen[p] {
+					seen[p] = true
+					files = append(files, treeFile{Path: p, Data: strings.Repeat("stale line of an earlier run\n", 60), Mode: 0644})
+				}
+			}
+		}
+	}
 	return files
 }
 
@@ -397,6 +409,13 @@ func c19Fixed() []c19Case {
 	cs = append(cs, c19Case{Name: "bundle-empty-middle-onto-input", Files: emptyMid, Inv: cliInv{Inputs: []string{"a.js", "empty.js", "c.js"}, Bundle: true, Output: "c.js"}})
 	cs = append(cs, c19Case{Name: "bundle-empty-first", Files: emptyMid, Inv: cliInv{Inputs: []string{"empty.js", "a.js", "c.js"}, Bundle: true}})
 	cs = append(cs, c19Case{Name: "bundle-empty-css", Files: emptyMid, Inv: cliInv{Inputs: []string{"f.css", "e.css", "f.css"}, Bundle: true, Output: "o.css"}})
+	// destinations that exist already and are longer than what is written now (a second run after the sources shrank)
+	long := strings.Repeat("/* stale content of an earlier run */\n", 40)
+	stale := []treeFile{{Path: "src/app.js", Data: js}, {Path: "src/app.css", Data: css}, {Path: "src/note.txt", Data: "n"}, {Path: "out/app.js", Data: long}, {Path: "out/app.css", Data: long}, {Path: "out/note.txt", Data: long}, {Path: "bundle.js", Data: long}}
+	cs = append(cs, c19Case{Name: "stale-longer-output-file", Files: stale, Inv: cliInv{Inputs: []string{"src/app.js"}, Output: "out/app.js"}})
+	cs = append(cs, c19Case{Name: "stale-longer-output-dir", Files: stale, Inv: cliInv{Inputs: []string{"src/"}, Recursive: true, Output: "out/"}})
+	cs = append(cs, c19Case{Name: "stale-longer-output-sync", Files: stale, Inv: cliInv{Inputs: []string{"src/"}, Recursive: true, Sync: true, Output: "out/"}})
+	cs = append(cs, c19Case{Name: "stale-longer-output-bundle", Files: stale, Inv: cliInv{Inputs: []string{"src/app.js", "src/app.js"}, Bundle: true, Output: "bundle.js"}})
 	add("many-to-stdout-rejected", cliInv{Inputs: []string{"src/app.js", "src/app.css"}})
 	add("flags-js", cliInv{Inputs: []string{"src/app.js"}, Flags: []string{"--js-keep-var-names"}})
 	add("flags-html", cliInv{Inputs: []string{"src/app.html"}, Flags: []string{"--html-keep-document-tags", "--html-keep-end-tags"}})
